@@ -416,7 +416,11 @@ def _solver_case(draw):
     return {"spec": spec, "family": fam, "offsets": draw(st.lists(off, min_size=4, max_size=12)),
             "flat": draw(st.booleans()), "N": draw(st.integers(1, 5)),
             "terminal": draw(st.sampled_from(["first_order", "data"])),
-            "shock": draw(st.sampled_from([0.0, 0.3, -0.5]))}
+            "shock": draw(st.sampled_from([0.0, 0.3, -0.5])),
+            # stacked time only: a plan that exogenizes a variable (at the last period or another one) and endogenizes
+            # its own shock - the unknowns and the terminal-condition map of the Jacobian change with it
+            "plan_swap": draw(st.one_of(st.none(), st.tuples(st.integers(0, 2), st.sampled_from(["last", "last", 0, 1]),
+                                                             st.sampled_from(["unanticipated", "anticipated"])).map(list)))}
 
 
 def _classify_solver(case):
@@ -497,16 +501,32 @@ def _check_stacked_jacobian(case):
                               where=f"(N={N}, terminal={case['terminal']})\n{lm.source(spec)}"))
         return orig(eval_func=eval_func, eval_jacob=eval_jacob, init_guess=init_guess, iter_printer=iter_printer, args=args, **settings)
 
+    skw = {}
+    labels_p = []
+    ps = case.get("plan_swap")
+    if ps:
+        j = ps[0] % spec["n"]
+        sh_ = lm.shock_names(spec)[j]
+        if sh_:
+            t_ = (N - 1) if ps[1] == "last" else int(ps[1]) % N
+            plan = ir.SimulationPlan(m, start >> (start + N - 1))
+            nm_ = spec["names"][j]
+            if ps[2] == "unanticipated":
+                api("plan:swap_unanticipated", plan.swap_unanticipated, start + t_, (nm_, sh_))
+            else:
+                api("plan:swap_anticipated", plan.swap_anticipated, start + t_, (nm_, "ant_" + sh_))
+            skw["plan"] = plan
+            labels_p.append("plan_exogenizes_last_period" if t_ == N - 1 else "plan_exogenizes_earlier_period")
     nq.damped_newton = shim
     try:
         try:
-            m.simulate(db, start >> (start + N - 1), method="stacked_time", terminal=case["terminal"])
+            m.simulate(db, start >> (start + N - 1), method="stacked_time", terminal=case["terminal"], **skw)
         except Exception:  # noqa: BLE001 - convergence is judged by C06
             pass
     finally:
         nq.damped_newton = orig
     col.done()
-    return {"labels": ["evaluators_checked" if sum(seen) else "no_evaluator_reached"], "nontrivial": sum(seen) > 0 and N >= 2}
+    return {"labels": ["evaluators_checked" if sum(seen) else "no_evaluator_reached"] + labels_p, "nontrivial": sum(seen) > 0 and N >= 2}
 
 
 SUBCHECKS = [
